@@ -319,7 +319,7 @@ func (e *Env) loadRef(ref string, t types.Type) Val {
 		}
 		var fs []string
 		for i := 0; i < sty.NumFields(); i++ {
-			c := vc.comp(e.st, fieldComp(name, sty.Field(i).Name()), vc.fieldCompSort(sty.Field(i).Type()))
+			c := vc.comp(e.st, fieldComp(name, sty.Field(i).Name()), vc.fieldCompSort(sty.Field(i).Type()), sty.Field(i).Type())
 			fs = append(fs, fmt.Sprintf("(select %s %s)", c, ref))
 		}
 		return Val{T: "(" + q("mk "+name) + " " + strings.Join(fs, " ") + ")", Typ: t}
@@ -363,7 +363,7 @@ func (e *Env) sel(t ESel) Val {
 		if i < 0 {
 			unsup("spec: struct %s has no field %s", name, t.F)
 		}
-		c := vc.comp(e.st, fieldComp(name, t.F), vc.fieldCompSort(sty.Field(i).Type()))
+		c := vc.comp(e.st, fieldComp(name, t.F), vc.fieldCompSort(sty.Field(i).Type()), sty.Field(i).Type())
 		return Val{T: fmt.Sprintf("(select %s %s)", c, xv.T), Typ: sty.Field(i).Type()}
 	}
 	if _, ok := ut.Underlying().(*types.Slice); ok {
@@ -430,7 +430,7 @@ func (e *Env) index(t EIndex) Val {
 	}
 	switch u := types.Unalias(xv.Typ).Underlying().(type) {
 	case *types.Slice:
-		c := vc.comp(e.st, elemComp(u.Elem()), vc.elemCompSort(u.Elem()))
+		c := vc.comp(e.st, elemComp(u.Elem()), vc.elemCompSort(u.Elem()), u.Elem())
 		return Val{T: fmt.Sprintf("(select (select %s (arr %s)) (+ (off %s) %s))", c, xv.T, xv.T, iv.T), Typ: u.Elem()}
 	case *types.Basic:
 		return Val{T: fmt.Sprintf("(sat %s %s)", xv.T, iv.T), Typ: types.Typ[types.Uint8]}
@@ -584,7 +584,7 @@ func (e *Env) expandArg(v Val) []string {
 	vc := e.vc
 	if v.Typ != nil {
 		if sl, ok := types.Unalias(v.Typ).Underlying().(*types.Slice); ok {
-			c := vc.comp(e.st, elemComp(sl.Elem()), vc.elemCompSort(sl.Elem()))
+			c := vc.comp(e.st, elemComp(sl.Elem()), vc.elemCompSort(sl.Elem()), sl.Elem())
 			return []string{fmt.Sprintf("(select %s (arr %s))", c, v.T), fmt.Sprintf("(off %s)", v.T)}
 		}
 	}
@@ -621,7 +621,7 @@ func (e *Env) callSpec(t ECall) Val {
 		if !ok {
 			unsup("spec: elems of non-slice")
 		}
-		c := vc.comp(e.st, elemComp(sl.Elem()), vc.elemCompSort(sl.Elem()))
+		c := vc.comp(e.st, elemComp(sl.Elem()), vc.elemCompSort(sl.Elem()), sl.Elem())
 		return Val{T: fmt.Sprintf("(select %s (arr %s))", c, v.T), Sort: "(Array Int " + vc.sortOf(sl.Elem()) + ")"}
 	case "tag":
 		v := e.eval(t.Args[0])
@@ -693,7 +693,7 @@ func (e *Env) callSpec(t ECall) Val {
 			}
 			penv.bound[prm.Name] = v
 		}
-		return mathBool(penv.evalBool(p.Body))
+		return penv.eval(p.Body)
 	}
 	// prelude (spec) function
 	if sig, ok := vc.prog.prelude.funs[t.Fn]; ok {
